@@ -156,7 +156,8 @@ theorem tie_policy_resolution :
     C04.policyResolution.map (·.1) = ["tryInitByPodConfig", "tryInitByPodGroup"] ∧
     C04.policyResolution.map (fun e => e.2.drop 1) = List.replicate 2
       ["if matchPolicy==\"\"", "matchPolicy=args.DefaultMatchPolicy",
-       "if matchPolicy!=extension.GangMatchPolicyOnlyWaiting&&matchPolicy!=extension.GangMatchPolicyWaitingAndRunning&&matchPolicy!=extension.GangMatchPolicyOnceSatisfied",
+       "if matchPolicy!=extension.GangMatchPolicyOnlyWaiting", "&&matchPolicy!=extension.GangMatchPolicyWaitingAndRunning",
+       "&&matchPolicy!=extension.GangMatchPolicyOnceSatisfied",
        "matchPolicy=args.DefaultMatchPolicy", "gang.GangMatchPolicy=matchPolicy"] ∧
     C04.policyResolution.map (fun e => e.2.take 1) =
       [["matchPolicy:=extension.GetGangMatchPolicy(pod)"], ["matchPolicy:=extension.GetGangMatchPolicy(pg)"]] := by
@@ -165,7 +166,7 @@ theorem tie_policy_resolution :
 theorem tie_mode_resolution :
     C04.modeResolution.map (fun e => e.2.drop 1) = List.replicate 2
       ["if mode==\"\"", "mode=extension.GangModeStrict",
-       "if mode!=extension.GangModeStrict&&mode!=extension.GangModeNonStrict", "mode=extension.GangModeStrict",
+       "if mode!=extension.GangModeStrict", "&&mode!=extension.GangModeNonStrict", "mode=extension.GangModeStrict",
        "gang.Mode=mode"] ∧
     C04.modeResolution.map (fun e => e.2.take 1) =
       [["mode:=pod.Annotations[extension.AnnotationGangMode]"], ["mode:=pg.Annotations[extension.AnnotationGangMode]"]] := by
